@@ -135,10 +135,10 @@ impl PlainYearMonth {
             // b. Let isoDateTimeOther be CombineISODateAndTimeRecord(otherDate, MidnightTimeRecord()).
             let target_iso_date_time = IsoDateTime::new_unchecked(other_date, IsoTime::default());
             // c. Let destEpochNs be GetUTCEpochNanoseconds(isoDateTimeOther).
-            let dest_epoch_ns = target_iso_date_time.as_nanoseconds()?;
+            let dest_epoch_ns = target_iso_date_time.utc_epoch_nanoseconds();
             // d. Set duration to ? RoundRelativeDuration(duration, destEpochNs, isoDateTime, unset, calendar, resolved.[[LargestUnit]], resolved.[[RoundingIncrement]], resolved.[[SmallestUnit]], resolved.[[RoundingMode]]).
             duration = duration.round_relative_duration(
-                dest_epoch_ns.as_i128(),
+                dest_epoch_ns,
                 &PlainDateTime::new_unchecked(iso_date_time, self.calendar.clone()),
                 Option::<(&TimeZone, &NeverProvider)>::None,
                 resolved,
